@@ -3,13 +3,13 @@ from checks_common import *
 _ARCH = ['msgpack', 'json', 'xml']
 CHECK = dict(
     # one small translation unit per (archive, type group): c01_groups.hpp defines 13 groups for the nesting archives and 3 for CSV
-    src=['harness/c01_roundtrip.cpp', 'harness/c01_trees.cpp']
+    src=['harness/c01_roundtrip.cpp', 'harness/c01_trees.cpp', 'harness/c01_long.cpp']
         + ['harness/c01_%s_g%02d.cpp' % (a, g) for a in _ARCH for g in range(13)]
         + ['harness/c01_csv_g%02d.cpp' % g for g in range(3)],
     variants=[P], level='exploration',
     technique='bounded exhaustive enumeration of (C++ type, named value, placement, archive, output configuration), every case executed through the real SaveObject / LoadObject; '
               'differential / invariant oracle: load(save(v)) == v into a default-constructed target, load -> save -> load is a fixed point, memory bytes == stream bytes',
-    level_text='Every execution runs the real archives. Complete within the stated alphabets and bounds: (i) a static catalogue of about 120 C++ types per nesting archive (every fundamental type, '
+    level_text='Every execution runs the real archives. Complete within the stated alphabets and bounds: (o) long documents: a structure of rows, a map, numbers and a padding text of every length 0..31 and 224..287 (thorough 0..599), so that every later byte meets every alignment of the 256-byte reader chunks, in all four archives, from memory and through five stream configurations (UTF-8 with/without BOM, UTF-16LE, UTF-16BE, UTF-32LE), compact and pretty; (i) a static catalogue of about 120 C++ types per nesting archive (every fundamental type, '
                'std::byte, nullptr_t, four string widths, registered enum, EnumAsBin, atomic, time_point / duration over ns, us, ms, s, min, h, CTimeRef, classes with internal / external serialisation, '
                'BaseObject, a conditional field, nested classes, C arrays, vector, vector<bool>, deque, list, forward_list, array, valarray, queue, stack, priority_queue, bitset, set / multiset / '
                'unordered_*, map / multimap / unordered_* with string, wide-string, int, float, double, enum and time_point keys, optional, unique_ptr, shared_ptr, pair, tuple, byte containers and the '
